@@ -26,8 +26,9 @@ H2Protocol / stream classes on the virtual-time asyncio loop and on instrumented
           CONTINUATION / padding / priority / plain and extended CONNECT / non-ASCII path, DATA +-END_STREAM
           +-padding, trailers, RST_STREAM on open and closed streams, WINDOW_UPDATE on connection / open / closed
           stream, PRIORITY before HEADERS / on idle parents / self-dependency, SETTINGS window 0 / 1 / 2^20, PING,
-          GOAWAY, unknown frame type, release of a gated application); depth 3 (quick) / 5 (thorough) on asyncio,
-          2 / 4 on trio.
+          GOAWAY, unknown frame type, release of a gated application); quick: depth 3 on asyncio, 2 on trio;
+          thorough: depth 4 with the full alphabet on both engines plus depth 5 with the core alphabet (28 operations:
+          without padded DATA / padded and prioritised HEADERS / unknown frame on a stream / window size 1) on asyncio.
 
 Oracle clauses
   handler-exception / loop-exception-handler
@@ -66,7 +67,7 @@ from mc.core import HarnessError, digest
 from mc.explore import ExecResult, V, _blank_result, bfs, explore_item
 from mc.harness import default_observation, describe, exc_site, generic_violations, run_world, std_execute
 from mc.x_c04_gen import (ANSWERED_AT_ONCE, APPS, CORPUS, H1_GET, H2_GET, SESSIONS, ClientModel, boundaries,
-                          case_events, grammar_events, grammar_kinds, grammar_roots, mutation_cases, session_bytes,
+                          case_events, grammar_enabled, grammar_events, grammar_roots, mutation_cases, session_bytes,
                           short_strings)
 from mc.x_c04_ref import (f_data, f_headers, f_ping, f_priority, f_rst, f_settings, f_winup, frame, h1_expect,
                           h2_expect, h2_preamble, make_raw_client)
@@ -93,7 +94,7 @@ BOUNDS_DOC = {
     "quick": "short strings len<=3; mutations: all on asyncio, 4 operators on trio; splices whole+split (trio whole); "
              "floods of 1100 frames; odd: M<=1,S<=2; grammar BFS depth 3 on asyncio, 2 on trio",
     "thorough": "short strings len<=4 (asyncio; 3 on trio); all mutations on both engines with EOF and idle-timer "
-                "endings; splices; floods of 1100 frames; odd: M<=2,S<=3 (trio: M<=1,S<=3,R<=1); grammar BFS depth 5 on asyncio, 4 on trio",
+                "endings; splices; floods of 1100 frames; odd: M<=2,S<=3 (trio: M<=1,S<=3,R<=1); grammar BFS depth 4 (full alphabet, both engines) and depth 5 (core alphabet, asyncio)",
 }
 BUDGET = {"quick": 90, "thorough": 1200}
 
@@ -152,12 +153,19 @@ def scenarios(tier: str) -> List[Any]:
         for odd in ODDITIES:
             for arr in ("sib_first", "sib_after"):
                 out.append(("odd", engine, odd, arr))
-        depth = {("quick", "asyncio"): 3, ("quick", "trio"): 2, ("thorough", "asyncio"): 5,
-                 ("thorough", "trio"): 4}[(tier, engine)]
-        nroot = 2 if depth >= 4 else 1
-        for root in grammar_roots(tier, nroot):
-            out.append(("gram", engine, depth, tuple(root), tier))
+        for depth, alphabet in GRAMMAR[(tier, engine)]:
+            for root in grammar_roots(alphabet, 2 if depth >= 4 else 1):
+                out.append(("gram", engine, depth, tuple(root), alphabet))
     return out
+
+
+# (depth, alphabet) of the breadth-first searches; alphabets are defined in mc.x_c04_gen.grammar_kinds/enabled
+GRAMMAR = {
+    ("quick", "asyncio"): [(3, "quick")],
+    ("quick", "trio"): [(2, "quick")],
+    ("thorough", "asyncio"): [(4, "full"), (5, "core")],
+    ("thorough", "trio"): [(4, "full")],
+}
 
 
 def bounds(tier: str, params: Any) -> dict:
@@ -599,7 +607,7 @@ def _snapshot(store: dict) -> Any:
     return probe
 
 
-def gram_run(engine: str, tier: str, history: List[tuple], verbose: bool = False) -> Tuple[Any, List[dict], List[tuple], Any]:
+def gram_run(engine: str, alphabet: str, history: List[tuple], verbose: bool = False) -> Tuple[Any, List[dict], List[tuple], Any]:
     history = [tuple(op) for op in history]
     events, _, _ = grammar_events(history)
     store: dict = {}
@@ -631,7 +639,7 @@ def gram_run(engine: str, tier: str, history: List[tuple], verbose: bool = False
              rec.handler, tuple(sorted((v["clause"], v["key"]) for v in viol)))
     ops: List[tuple] = []
     if nops == len(history) and err is None:
-        for op in model.enabled(grammar_kinds(tier)):
+        for op in grammar_enabled(model, alphabet):
             if op == ("REL",):
                 if store.get("parked"):
                     ops.append(op)
@@ -690,21 +698,21 @@ def explore_item_custom(params: tuple, tier: str, deadline: float) -> dict:
         except HarnessError as e:
             raise HarnessError(f"{e}; prefix={last[0] if last else None} trace={last[1] if last else None}")
     if kind == "gram":
-        _, engine, depth, root, gtier = params
+        _, engine, depth, root, alphabet = params
         count = [0]
 
         def run(history: List[tuple]) -> Tuple[Any, List[dict], List[tuple]]:
             count[0] += 1
             if count[0] % 200 == 0:
                 gc.collect()
-            canon, viol, ops, _ = gram_run(engine, gtier, history)
+            canon, viol, ops, _ = gram_run(engine, alphabet, history)
             return canon, _fresh(viol), ops
 
         res = bfs(run, depth - len(root), deadline, roots=[list(root)])
         for v in res["violations"]:
             v["params"] = params
-        c1 = gram_run(engine, gtier, list(root))[0]
-        c2 = gram_run(engine, gtier, list(root))[0]
+        c1 = gram_run(engine, alphabet, list(root))[0]
+        c2 = gram_run(engine, alphabet, list(root))[0]
         res["replay_checks"] += 1
         if c1 != c2:
             res["replay_divergences"] += 1
